@@ -1968,7 +1968,110 @@ def c03_exact(inp):
     return {"reproduced": False, "detail": f"{ntr} noise-free multi-setup systems: SSIcov_MS(cov_mm) and SSIdat_MS recover the global f, xi and shapes (references first, then roving per setup) at order 2m, independent of per-setup gains"}
 
 
-DRIVERS = {"c03_exact": c03_exact, "c05_exact": c05_exact, "c01_exact": c01_exact, "c01_modal": c01_modal, "c19_geo": c19_geo, "c15_gating": c15_gating, "c15_poser": c15_poser, "c11_plscf_findmin": c11_plscf_findmin, "c11_mpe": c11_mpe, "c06_fdd": c06_fdd, "c20_plots": c20_plots, "c18_indicators": c18_indicators, "c13_sdest": c13_sdest, "c04_preger": c04_preger, "c03_split": c03_split, "c14_sequences": c14_sequences, "c16_dialog": c16_dialog, "c02_merge": c02_merge, "c09_run": c09_run, "c10_run": c10_run, "c10_fn": c10_fn}
+
+# ----------------------------------------------------------------------------------
+# C17: covariance factor of build_hank and first-order propagation of the frequency variance
+# ----------------------------------------------------------------------------------
+
+def c17_factor(inp):
+    from pyoma2.functions import ssi
+    claim = inp.get("claim", "form")
+    rng = np.random.RandomState(int(inp.get("seed", 17)))
+    for trial in range(int(inp.get("trials", 12))):
+        l, br, nb = int(rng.randint(1, 4)), int(rng.randint(2, 5)), int(rng.randint(2, 12))
+        r = int(rng.randint(1, l + 1))
+        Nd = 2 * br + 1 + int(rng.randint(2 * nb + 3, 40 * nb))
+        Y = rng.randn(l, Nd)
+        Yref = Y[rng.permutation(l)[:r]]
+        H, T = ssi.build_hank(Y, Yref, br, "cov_mm", calc_unc=True, nb=nb)
+        p, q = br, br + 1
+        N = Nd - p - q
+        Nb = N // nb
+        Yf = np.vstack([Y[:, q + 1 + i:N + q + i] for i in range(p + 1)])
+        Yp = np.vstack([Yref[:, q + i:N + q - 1 + i] for i in range(0, -q, -1)])
+        Hk = [Yf[:, k * Nb:(k + 1) * Nb] @ Yp[:, k * Nb:(k + 1) * Nb].T / Nb for k in range(nb)]      # block estimates on the scale of H
+
+        def build(colmajor, on_scale):
+            vec = (lambda M: M.reshape(-1, order="F")) if colmajor else (lambda M: M.reshape(-1))
+            return np.stack([(vec(hk if on_scale else hk / N) - vec(H)) / np.sqrt(nb * (nb - 1)) for hk in Hk], axis=1)
+        ctx = f"l={l}, r={r}, br={br}, nb={nb}, Ndat={Nd}, trial {trial}"
+        if claim == "form":
+            if T.shape != build(False, False).shape or not np.allclose(T, build(False, False), rtol=1e-9, atol=1e-12):
+                return {"reproduced": True, "detail": f"build_hank's factor is no longer row-stacked vec(H_k/N - H)/sqrt(nb(nb-1)) ({ctx})"}
+        elif claim == "scale":
+            if not np.allclose(T, build(False, True), rtol=1e-9, atol=1e-12):
+                ratio = np.abs(build(False, True)).max() / max(np.abs(T).max(), 1e-300)
+                return {"reproduced": True, "detail": f"block estimates are H_k / N instead of H_k (N = {N}): the factor's Gram matrix is not the sample covariance of the mean "
+                                                      f"(max |T| = {np.abs(T).max():.3e}, expected {np.abs(build(False, True)).max():.3e}; {ctx})"}
+        elif claim == "vec":
+            if not np.allclose(T, build(True, False), rtol=1e-9, atol=1e-12):
+                return {"reproduced": True, "detail": f"deviations are stacked row by row (C order), not column by column ({ctx})"}
+    return {"reproduced": False, "detail": f"factor agrees with the '{claim}' form"}
+
+
+def c17_fd(inp):
+    """single perturbation direction: reported frequency variance vs squared central finite difference of the identification"""
+    from pyoma2.functions import ssi
+    rng = np.random.RandomState(int(inp.get("seed", 18)))
+    worst = None
+    n_cases = 0
+    for trial in range(int(inp.get("trials", 6))):
+        l = int(rng.randint(1, 4)); r = l; br = int(rng.randint(3, 6)); m = int(rng.randint(1, 3))
+        fs = 20.0; dt = 1 / fs
+        f = np.sort(rng.uniform(1.0, 8.0, m))
+        if m > 1 and np.min(np.diff(f)) < 1.0:
+            continue
+        xi = rng.uniform(0.01, 0.05, m)
+        lam = -xi * 2 * np.pi * f + 1j * 2 * np.pi * f * np.sqrt(1 - xi ** 2)
+        mu = np.exp(np.concatenate([lam, lam.conj()]) * dt)
+        phi = rng.randn(l, m)
+        V = np.concatenate([phi, phi], axis=1).astype(complex)
+        Obs_t = np.vstack([V * mu ** i for i in range(br + 1)])
+        g = rng.randn(m) + 1j * rng.randn(m)
+        G = np.concatenate([g, g.conj()])
+        Ctr = np.vstack([(mu ** j) * G for j in range((br + 1) * r)]).T
+        H0 = np.real(Obs_t @ Ctr) + 1e-3 * rng.randn((br + 1) * l, (br + 1) * r)
+        ordmax = 2 * m
+        D = rng.randn(*H0.shape)
+
+        def poles(H):
+            Obs, A, C, *_ = ssi.SSI_fast(H, br, ordmax, step=1)
+            Fn, Xi, Phi, Lam, *_ = ssi.SSI_poles(Obs, A, C, ordmax, dt, step=1)
+            return Fn, Lam
+        Fn0, Lam0 = poles(H0)
+        fd = []
+        for eps in (1e-6, 1e-7):
+            Fp, Lp = poles(H0 + eps * D)
+            Fm, Lm = poles(H0 - eps * D)
+            d = []
+            for j in range(ordmax):
+                jp = np.nanargmin(np.abs(Lp[:, ordmax] - Lam0[j, ordmax]))
+                jm = np.nanargmin(np.abs(Lm[:, ordmax] - Lam0[j, ordmax]))
+                d.append((Fp[jp, ordmax] - Fm[jm, ordmax]) / (2 * eps))
+            fd.append(np.array(d) ** 2)
+        if not np.allclose(fd[0], fd[1], rtol=1e-3, atol=1e-12):
+            continue            # derivative not trustworthy at these step sizes: guarded case
+        n_cases += 1
+        best = None
+        for name, vec in (("column-stacked", lambda M: M.reshape(-1, 1, order="F")), ("row-stacked", lambda M: M.reshape(-1, 1))):
+            T = vec(D)
+            Obs, A, C, Q1, Q2, Q3, Q4 = ssi.SSI_fast(H0, br, ordmax, step=1, calc_unc=True, T=T, nb=1)
+            out = ssi.SSI_poles(Obs, A, C, ordmax, dt, step=1, calc_unc=True, Q1=Q1, Q2=Q2, Q3=Q3, Q4=Q4)
+            rep = out[4][:ordmax, ordmax]
+            rel = np.max(np.abs(rep - fd[0]) / np.maximum(np.abs(fd[0]), 1e-300))
+            if best is None or rel < best[1]:
+                best = (name, rel, rep)
+        if best[1] > 1e-3 and (worst is None or best[1] > worst[1]):
+            worst = (f"l={l}, br={br}, order {ordmax}, trial {trial}", best[1], best[0], best[2], fd[0])
+    if worst:
+        return {"reproduced": True, "failures": [{"claim": "frequency variance = squared directional derivative (single direction)",
+                "detail": f"reported Fn variance {np.round(worst[3], 8).tolist()} vs squared central finite difference {np.round(worst[4], 8).tolist()} "
+                          f"(relative error {worst[1]:.2e} with the better of both vectorisations: {worst[2]}; {worst[0]}; {n_cases} guarded cases)"}],
+                "detail": f"first-order propagation disagrees with finite differences: relative error {worst[1]:.2e} ({worst[0]})"}
+    return {"reproduced": False, "detail": f"reported variances equal squared directional derivatives on {n_cases} guarded cases"}
+
+
+DRIVERS = {"c17_factor": c17_factor, "c17_fd": c17_fd, "c03_exact": c03_exact, "c05_exact": c05_exact, "c01_exact": c01_exact, "c01_modal": c01_modal, "c19_geo": c19_geo, "c15_gating": c15_gating, "c15_poser": c15_poser, "c11_plscf_findmin": c11_plscf_findmin, "c11_mpe": c11_mpe, "c06_fdd": c06_fdd, "c20_plots": c20_plots, "c18_indicators": c18_indicators, "c13_sdest": c13_sdest, "c04_preger": c04_preger, "c03_split": c03_split, "c14_sequences": c14_sequences, "c16_dialog": c16_dialog, "c02_merge": c02_merge, "c09_run": c09_run, "c10_run": c10_run, "c10_fn": c10_fn}
 
 
 def main():
